@@ -403,7 +403,14 @@ def vendor_classes():
 
         class VendorBinary(BinaryPV):
             enumerations = {"vendorTristate": 2}
-        _VENDOR.extend([VendorObjectIdentifier, VendorUnits, VendorBinary])
+        # ... and the same without any preparation: the first thing that ever happens to these classes is an identifier
+        # given by a name of the vendor's
+        class VendorObjectTypeUnprepared(ObjectType):
+            enumerations = {"vendorPump": 600, "vendorValve": 1023, "vendorThing": 128}
+
+        class VendorObjectIdentifierUnprepared(ObjectIdentifier):
+            objectTypeClass = VendorObjectTypeUnprepared
+        _VENDOR.extend([VendorObjectIdentifier, VendorUnits, VendorBinary, VendorObjectIdentifierUnprepared])
     return list(_VENDOR)
 
 
